@@ -42,6 +42,8 @@ ErrVariants ==
   {[ae |-> "posix_memalign", n |-> 64, al |-> al, re |-> "none", n2 |-> 0, lib |-> "any"] : al \in {0, 4, 24}}
   \cup {[ae |-> "posix_memalign", n |-> -1, al |-> 64, re |-> "none", n2 |-> 0, lib |-> "any"],
         [ae |-> "reallocarray_null", n |-> -1, al |-> 0, re |-> "none", n2 |-> 0, lib |-> "any"]}
+  \cup {[ae |-> ae, n |-> -1, al |-> (IF ae \in AlignedAlloc THEN 64 ELSE IF ae \in PageAlloc THEN Page ELSE 0), re |-> "none", n2 |-> 0, lib |-> "any"] :
+           ae \in {"malloc", "calloc", "realloc_null", "aligned_alloc", "memalign", "valloc", "pvalloc"}}
 \* every form of operator new once with an unsatisfiable size, against a library compiled as C and one compiled as C++
 FailNewVariants ==
   {[ae |-> ae, n |-> -1, al |-> (IF ae \in AlignedAlloc THEN 64 ELSE 0), re |-> "none", n2 |-> 0, lib |-> lib] :
